@@ -401,9 +401,17 @@ func (w *c06World) alterData(kind, p1, p2 int64, data []byte) (out []byte, name 
 		}
 		return d[:int64(len(d))-cut], "trunc", true
 	case 2:
-		return append(d, w.randBytes(1+int(p1%64))...), "extend", true
+		n := 1 + int(p1%64)
+		if p2%2 == 0 {
+			n = 1 + int(p1%9) // just past the end: up to one span's worth and one more
+		}
+		return append(d, w.randBytes(n)...), "extend", true
 	case 3:
-		return append(d, make([]byte, 1+int(p1%4096))...), "extend-zero", true
+		n := 1 + int(p1%4096)
+		if p2%2 == 0 {
+			n = 1 + int(p1%9)
+		}
+		return append(d, make([]byte, n)...), "extend-zero", true
 	case 4:
 		need := c06MaxData + c06SpanSize + 1 - len(d)
 		if need < 1 {
